@@ -20,38 +20,6 @@ theorem R_saveMid {st : St} {sp : Spec.S} (r : R st sp) (w : Map Blob) (s : Blob
   rw [saveCall_ws, saveCall_loader, saveCall_writer]
   exact r3
 
-/-- no part is held as an *empty* Pkg entry while a temp file with other bytes exists for it -/
-def NoStaleEmpty (st : St) : Prop :=
-  ∀ n b c, load st.pkg n = some b → b.len = 0 → rtOf st.temp st.disk n = some c → c = b
-
-/-- `save_zip_refines` (partial: the hypothesis `NoStaleEmpty` on the listing state is explicit — it holds in
-every reachable state, which is not proved here): the saved package lists, for every part name, exactly the
-bytes of the plain map after the save — no orphan, nothing missing -/
-theorem save_zip_refines_partial {st : St} {sp : Spec.S} (r : R st sp) (h : PK st) (w : Map Blob) (s : Blob)
-    (o : Map Blob) (a : Adm sp (.save w s o)) (ne : NoStaleEmpty (saveMid st w s o)) (n : String) (hn : n ≠ sstKey) :
-    load (save st w s o).2 n = load (Spec.step sp (.save w s o)).1.m n := by
-  have rm := R_saveMid r w s o a
-  rw [(save_zip_struct r.inv h w s o).2 n, ← rm.abs n hn, absAt_eq]
-  cases hp : load (saveMid st w s o).pkg n with
-  | some b =>
-    by_cases hb : b.len = 0
-    · cases hr : rtOf (saveMid st w s o).temp (saveMid st w s o).disk n with
-      | none => simp [absOf, hb]
-      | some c => rw [ne n b c hp hb hr]; simp [absOf, hb]
-    · simp [absOf, hb]
-  | none =>
-    simp only [absOf]
-    by_cases hm : n ∈ keys (saveMid st w s o).temp
-    · simp only [hm, if_true]
-      cases hl : load (saveMid st w s o).temp n with
-      | none => exact absurd hm ((load_eq_none_iff _ _).1 hl)
-      | some id =>
-        obtain ⟨t, _, hr⟩ := rt_some_of_spilled rm.inv hl
-        rw [hr]; rfl
-    · simp only [hm, if_false]
-      have : load (saveMid st w s o).temp n = none := (load_eq_none_iff _ _).2 hm
-      unfold rtOf; rw [this]
-
 /-! ### Pkg keys stay unique -/
 
 theorem sstItem_pkg (st : St) (flat : Blob) : (sstItem st flat).pkg = st.pkg := by
